@@ -1,13 +1,117 @@
-//! c14: bounded stand-in (E3) -- see DESIGN.md section 5
-#![allow(dead_code, unused_imports)]
+//! C14: content streams survive encode and decode (bounded stand-in for the nom operator/operand parsers).
+#![allow(dead_code)]
+use crate::c03::{obj_from_json, obj_json};
 use crate::common::*;
 use crate::gen::*;
+use lopdf::content::{Content, Operation};
+use lopdf::{Object, StringFormat};
+use rayon::prelude::*;
 use serde_json::{json, Value};
 
-pub fn run(_thorough: bool) -> Report {
-    Report::new("not built yet", false)
+fn direct_alphabet() -> Vec<Object> {
+    let mut v: Vec<Object> = leaves().into_iter().filter(|o| !matches!(o, Object::Reference(_))).collect();
+    v.extend(containers().into_iter().filter(|o| !has_ref_or_stream(o)));
+    v
+}
+fn has_ref_or_stream(o: &Object) -> bool {
+    match o {
+        Object::Reference(_) | Object::Stream(_) => true,
+        Object::Array(a) => a.iter().any(has_ref_or_stream),
+        Object::Dictionary(d) => d.iter().any(|(_, v)| has_ref_or_stream(v)),
+        _ => false,
+    }
+}
+const OPERATORS: &[&str] = &["Tj", "T*", "'", "\"", "re", "BT", "q", "W*", "Do", "n", "TJ", "f*"];
+
+fn ops_eq(a: &[Operation], b: &[Operation]) -> bool {
+    a.len() == b.len() && a.iter().zip(b).all(|(x, y)| x.operator == y.operator && x.operands.len() == y.operands.len() && x.operands.iter().zip(&y.operands).all(|(p, q)| obj_eq(p, q)))
 }
 
-pub fn replay(_v: &Value) -> Result<(), String> {
-    Err("no replay".into())
+pub fn check_ops(ops: &[Operation]) -> Result<(), (String, String)> {
+    let c = Content { operations: ops.to_vec() };
+    let enc = match guarded(std::panic::AssertUnwindSafe(|| c.encode())) { Ok(Ok(e)) => e, other => return Err(("encode".into(), format!("{:?}", other.map(|r| r.map_err(|e| e.to_string()))))) };
+    match guarded(|| Content::decode(&enc)) {
+        Err(p) => Err(("decode-no-panic".into(), p)),
+        Ok(Err(e)) => Err(("decode-equals-encoded".into(), format!("encoded {:?} fails to decode: {}", String::from_utf8_lossy(&enc), e))),
+        Ok(Ok(d)) => if ops_eq(ops, &d.operations) { Ok(()) } else { Err(("decode-equals-encoded".into(), format!("{:?} encoded as {:?} decodes to {:?}", ops, String::from_utf8_lossy(&enc), d.operations))) },
+    }
+}
+
+fn ops_json(ops: &[Operation]) -> Value { json!({"kind": "ops", "ops": ops.iter().map(|o| json!({"op": o.operator, "args": o.operands.iter().map(obj_json).collect::<Vec<_>>()})).collect::<Vec<_>>()}) }
+fn ops_from_json(v: &Value) -> Vec<Operation> { v["ops"].as_array().cloned().unwrap_or_default().iter().map(|o| Operation::new(o["op"].as_str().unwrap_or("x"), o["args"].as_array().cloned().unwrap_or_default().iter().map(obj_from_json).collect())).collect() }
+
+fn inline_image_bytes(w: usize, h: usize, cs: &str, ncol: usize, bpc: usize, abbreviated: bool, seed: u8) -> Vec<u8> {
+    let stride = (w * ncol * bpc + 7) / 8;
+    let data: Vec<u8> = (0..stride * h).map(|i| (i as u8).wrapping_mul(37).wrapping_add(seed)).collect();
+    let mut b = Vec::new();
+    b.extend_from_slice(b"q\nBI ");
+    if abbreviated { b.extend_from_slice(format!("/W {} /H {} /BPC {} /CS /{} ", w, h, bpc, cs).as_bytes()); }
+    else { b.extend_from_slice(format!("/Width {} /Height {} /BitsPerComponent {} /ColorSpace /{} ", w, h, bpc, cs).as_bytes()); }
+    b.extend_from_slice(b"ID ");
+    b.extend_from_slice(&data);
+    b.extend_from_slice(b" EI\nQ");
+    b
+}
+
+pub fn check_inline(bytes: &[u8]) -> Result<bool, (String, String)> {
+    let d1 = match guarded(|| Content::decode(bytes)) { Ok(Ok(d)) => d, Ok(Err(e)) => return Err(("inline-decodes".into(), format!("{}", e))), Err(p) => return Err(("decode-no-panic".into(), p)) };
+    if !d1.operations.iter().any(|o| o.operator == "BI") { return Err(("inline-decodes".into(), format!("no BI operation decoded from {:?}", String::from_utf8_lossy(bytes)))); }
+    let enc = match guarded(std::panic::AssertUnwindSafe(|| d1.encode())) { Ok(Ok(e)) => e, other => return Err(("inline-reencode".into(), format!("{:?}", other.map(|r| r.map_err(|e| e.to_string()))))) };
+    match guarded(|| Content::decode(&enc)) {
+        Ok(Ok(d2)) if ops_eq(&d1.operations, &d2.operations) => Ok(true),
+        Ok(Ok(d2)) => Err(("inline-reencode".into(), format!("decode -> encode -> decode changed the operations: {} operations became {} (re-encoded bytes start {:?})", d1.operations.len(), d2.operations.len(), String::from_utf8_lossy(&enc[..enc.len().min(60)])))),
+        Ok(Err(e)) => Err(("inline-reencode".into(), format!("re-encoded content fails to decode: {}", e))),
+        Err(p) => Err(("decode-no-panic".into(), p)),
+    }
+}
+
+pub fn run(thorough: bool) -> Report {
+    let mut rep = Report::new("single operations: 12 operators x 0..2 operands over the direct-object alphabet (all combinations); sequences of 2 and 3 operations over a 9-operation set (all); all 65 536 byte pairs as name / literal / hex string operands; inline images: W,H in 1..3 x {G,RGB,CMYK and long names} x BPC {1,8} x abbreviated/long keys", true);
+    let alpha = direct_alphabet();
+    // 1. single operations
+    let mut cases: Vec<Vec<Operation>> = vec![];
+    for op in OPERATORS {
+        cases.push(vec![Operation::new(op, vec![])]);
+        for a in &alpha { cases.push(vec![Operation::new(op, vec![a.clone()])]); }
+    }
+    let step = if thorough { 1 } else { 3 };
+    for (i, a) in alpha.iter().enumerate() { for (j, b) in alpha.iter().enumerate() { if (i + j) % step == 0 { cases.push(vec![Operation::new(OPERATORS[(i + j) % OPERATORS.len()], vec![a.clone(), b.clone()])]); } } }
+    // 2. sequences
+    let small: Vec<Operation> = vec![
+        Operation::new("BT", vec![]), Operation::new("Tf", vec![name(b"F1"), Object::Integer(12)]), Operation::new("Tj", vec![lit(b"a(b\\c")]),
+        Operation::new("'", vec![lit(b"x")]), Operation::new("\"", vec![Object::Integer(1), Object::Real(0.5), lit(b")")]), Operation::new("TJ", vec![Object::Array(vec![lit(b"A"), Object::Integer(-120), hexs(b"\x00\xff")])]),
+        Operation::new("ET", vec![]), Operation::new("re", vec![Object::Integer(i64::MIN), Object::Integer(i64::MAX), Object::Real(-0.001), Object::Null]), Operation::new("BDC", vec![name(b"Span"), Object::Dictionary(dict(vec![(b"MCID", Object::Integer(0))]))]),
+    ];
+    for a in &small { for b in &small { cases.push(vec![a.clone(), b.clone()]); for c in &small { cases.push(vec![a.clone(), b.clone(), c.clone()]); } } }
+    for ops in &cases {
+        rep.case(!ops[0].operands.is_empty());
+        if let Err((o, d)) = check_ops(ops) { rep.fail(&o, d.clone(), ops_json(ops), d); }
+    }
+    rep.sample(format!("{:?}", cases[17]));
+    // 3. byte pairs
+    let fails: Vec<(String, String, Value)> = (0u32..65536).into_par_iter().filter_map(|v| {
+        let bytes = vec![(v >> 8) as u8, v as u8];
+        for o in [Object::Name(bytes.clone()), Object::String(bytes.clone(), StringFormat::Literal), Object::String(bytes.clone(), StringFormat::Hexadecimal)] {
+            let ops = vec![Operation::new("Tj", vec![o.clone(), Object::Integer(1), o])];
+            if let Err((ob, d)) = check_ops(&ops) { return Some((ob, d, ops_json(&ops))); }
+        }
+        None
+    }).collect();
+    rep.evaluations += 3 * 65536; rep.nontrivial += 3 * 65536;
+    for (o, d, i) in fails { rep.fail(&o, d.clone(), i, d); }
+    // 4. inline images
+    for w in 1..=3 { for h in 1..=3 { for (cs, n) in [("Gray", 1), ("RGB", 3), ("CMYK", 4), ("DeviceGray", 1), ("DeviceRGB", 3), ("DeviceCMYK", 4)] { for bpc in [1, 8] { for abbr in [true, false] { for seed in [0u8, 0x45] {
+        let b = inline_image_bytes(w, h, cs, n, bpc, abbr, seed);
+        rep.case(true);
+        if let Err((o, d)) = check_inline(&b) { rep.fail(&o, d.clone(), json!({"kind": "inline", "bytes": hex(&b)}), d); }
+    } } } } } }
+    rep
+}
+
+pub fn replay(v: &Value) -> Result<(), String> {
+    match v["kind"].as_str() {
+        Some("ops") => check_ops(&ops_from_json(v)).map_err(|e| format!("{}: {}", e.0, e.1)),
+        Some("inline") => check_inline(&unhex(v["bytes"].as_str().unwrap_or(""))).map(|_| ()).map_err(|e| format!("{}: {}", e.0, e.1)),
+        _ => Err("unknown replay kind".into()),
+    }
 }
